@@ -168,6 +168,8 @@ func guard(f func() string) (out string) {
 
 func isPanic(s string) bool { return strings.HasPrefix(s, "PANIC:") }
 
+func isDeadlock(s string) bool { return strings.HasPrefix(s, "PANIC:SIM-DEADLOCK") }
+
 func panicFrame(s string) string {
 	if i := strings.LastIndex(s, " @ "); i >= 0 {
 		return s[i+3:]
